@@ -245,6 +245,19 @@ func (w *World) RandomTx(r *verifutil.Rng, hostilePct int) *Gen {
 				}
 			}
 		}
+		// also: identities whose delegation to a pool is only PENDING (DelegateTx mined, switch not applied yet)
+		if pool == nil || r.Intn(3) == 0 {
+			for _, a := range w.SortedActors() {
+				if ds := st.DelegationSwitch(a.Addr); ds != nil && !ds.Delegatee.IsEmpty() {
+					if p, ok := w.ByAddr[ds.Delegatee]; ok {
+						pool, target = p, a.Addr
+						if r.Bool() {
+							break
+						}
+					}
+				}
+			}
+		}
 		if pool == nil {
 			return nil
 		}
